@@ -33,8 +33,8 @@ type Finding struct {
 	// RaceFunctions (C17): every function that touches the unsynchronised state of this finding;
 	// a race report is this finding iff both of its spine-go frames are listed.
 	RaceFunctions []string `json:"race_functions,omitempty"`
-	WhatFails string `json:"what_fails"`
-	Commit    string `json:"commit,omitempty"`
+	WhatFails     string   `json:"what_fails"`
+	Commit        string   `json:"commit,omitempty"`
 }
 
 var (
